@@ -113,6 +113,11 @@ type endpoint struct {
 	// IPv4 when IPv6 endpoint is bound or connected to an IPv4 mapped
 	// address).
 	effectiveNetProtos []tcpip.NetworkProtocolNumber
+
+	// reservedNetProtos contains the network protocols the local port was
+	// reserved for; a later Connect may narrow effectiveNetProtos, the
+	// reservation stays as it was made.
+	reservedNetProtos []tcpip.NetworkProtocolNumber
 }
 
 // 多播的成员关系，包括多播地址和网卡ID
@@ -180,7 +185,7 @@ func (e *endpoint) Close() {
 		// 释放在协议栈中注册的UDP端
 		e.stack.UnregisterTransportEndpoint(e.regNICID, e.effectiveNetProtos, ProtocolNumber, e.id)
 		// 释放端口占用
-		e.stack.ReleasePort(e.effectiveNetProtos, ProtocolNumber, e.id.LocalAddress, e.id.LocalPort)
+		e.stack.ReleasePort(e.reservedNetProtos, ProtocolNumber, e.id.LocalAddress, e.id.LocalPort)
 	}
 
 	for _, mem := range e.multicastMemberships {
@@ -807,6 +812,7 @@ func (e *endpoint) registerWithStack(nicid tcpip.NICID, netProtos []tcpip.Networ
 			return id, err
 		}
 		id.LocalPort = port
+		e.reservedNetProtos = netProtos
 	}
 
 	err := e.stack.RegisterTransportEndpoint(nicid, netProtos, ProtocolNumber, id, e)
